@@ -135,6 +135,12 @@ class InstanceManager:
             "microseconds":0 if "microseconds" not in timeout else timeout["microseconds"]
         }
 
+        try:
+            # a timeout that cannot be turned into a duration would make every later sweep fail, for all instances
+            datetime.timedelta(**timeout)
+        except (TypeError, ValueError, OverflowError):
+            return None
+
         instance_data = {
             "instance": self._make_bptk(),
             "time": datetime.datetime.now(),
@@ -626,8 +632,11 @@ class BptkServer(Flask):
             instance_uuids.append(self._instance_manager.create_instance(**timeout))
 
         response_data={"instance_uuids":instance_uuids,"timeout":timeout}
-        
-        resp = make_response(json.dumps(response_data), 200)
+
+        if None in instance_uuids:
+            resp = make_response('{"error": "instances could not be started"}', 500)
+        else:
+            resp = make_response(json.dumps(response_data), 200)
         resp.headers['Content-Type'] = 'application/json'
         resp.headers['Access-Control-Allow-Origin'] = '*'
         return resp
